@@ -4,7 +4,7 @@
 EXTENDS ConcConn
 CONSTANTS Writers, K, N
 VARIABLES wnext, delivered
-vars == <<stream, rd, closed, broken, half, wnext, delivered>>
+vars == <<stream, rd, closed, broken, half, faulted, wnext, delivered>>
 Init == CInit /\ wnext = [e \in Ends |-> [w \in Writers |-> 1]] /\ delivered = [e \in Ends |-> <<>>]
 DoWrite(e, w) == /\ wnext[e][w] <= K
                  /\ (WriteOK(e, <<e, w, wnext[e][w]>>, N) \/ (WriteErr(e, <<e, w, wnext[e][w]>>, N) /\ WriteErrReturn(e)))
@@ -20,7 +20,8 @@ DoRead(e) == \/ \E segs \in NextSegs(e) : ReadOK(e, segs) /\ delivered' = [deliv
              \/ ReadErr(e) /\ UNCHANGED <<wnext, delivered>>
 DoClose(e) == e \notin closed /\ CloseOp(e) /\ UNCHANGED <<wnext, delivered>>
 DoCloseWrite(e) == e \notin half /\ CloseWriteOp(e) /\ UNCHANGED <<wnext, delivered>>
-Next == \E e \in Ends : (\E w \in Writers : DoWrite(e, w)) \/ DoRead(e) \/ DoClose(e) \/ DoCloseWrite(e)
+DoFaultRead(e) == e \notin faulted /\ e \notin closed /\ FaultRead(e) /\ UNCHANGED <<wnext, delivered>>
+Next == \E e \in Ends : (\E w \in Writers : DoWrite(e, w)) \/ DoRead(e) \/ DoClose(e) \/ DoCloseWrite(e) \/ DoFaultRead(e)
 Spec == Init /\ [][Next]_vars
 
 \* consequences named by the statement
